@@ -241,18 +241,26 @@ func cmdCheck(args []string) {
 			st := o.Result.Status
 			solverMs += o.Result.Millis
 			if o.Cover {
-				if st == "unsat" && strings.Contains(r.Key, "#") && strings.Contains(o.Name, "/cover[return") {
-					// a contract variant restricts the paths by its precondition: single
-					// return sites may be unreachable under it; it is vacuous only if no
-					// return site is reachable at all
-					someLive := false
+				if st == "unsat" && strings.Contains(o.Name, "/cover[return") {
+					// a single return site may be dead code (an error branch after a callee
+					// that never fails, a path excluded by a variant's precondition); an
+					// assumption that contradicts itself kills every return after it too,
+					// so a dead return is reported only if no later return site is live
+					laterLive := false
+					seenSelf := false
 					for _, o2 := range r.VC.obls {
-						if o2.Cover && strings.Contains(o2.Name, "/cover[return") && o2.Result.Status != "unsat" {
-							someLive = true
+						if o2 == o {
+							seenSelf = true
+							continue
+						}
+						if o2.Cover && strings.Contains(o2.Name, "/cover[return") && o2.Result.Status != "unsat" &&
+							(seenSelf || strings.Contains(r.Key, "#")) {
+							// (a contract variant selects paths by its precondition: any live return will do)
+							laterLive = true
 						}
 					}
-					if someLive {
-						trusted["note:"+o.Name+" is unreachable under the variant's precondition"] = true
+					if laterLive {
+						trusted["note:"+o.Name+" is unreachable (dead return site; later return sites are reachable)"] = true
 						continue
 					}
 				}
